@@ -19,9 +19,9 @@ def main(tier):
     if not whitebox:
         ck.builds.pop()
         ck.notes.append('white-box harnesses do not compile against this tree (internal representation changed); black-box harness only')
-        keep = ('common.go', 'c13_bb.go', 'refmode.go')
+        keep = ('common.go', 'c13_bb.go')
         import glob as _g
-        excl = tuple('ppu/' + os.path.basename(f) for f in _g.glob(os.path.join(VERIF, 'harness', 'ppu', '*.go')) if os.path.basename(f) not in keep)
+        excl = ('ppu/export.go',) + tuple('ppu/' + os.path.basename(f) for f in _g.glob(os.path.join(VERIF, 'harness', 'ppu', '*.go')) if os.path.basename(f) not in keep)
         ck.use_build(['ppu'], bodies='image,image/color,math/bits', exclude=excl)
     ck.bounds = {'step': 'one machine cycle / one LCDC write from every (ticks, mode, ly, firstLine, enabled) state satisfying lcdInv, all other PPU/OAM/interrupt state arbitrary',
                  'induction': 'lcdInv holds after New() and is preserved by EndMachineCycle and WriteLCDC, so the per-cycle LY/mode relation holds at every cycle of every on/off schedule',
